@@ -417,7 +417,7 @@ fn check_bufsim(o: &Opts, prop: Prop) {
 			w.runs += 1;
 			w.steps += r.steps as u64;
 			let th = dhash(&r.trace);
-			let d = th ^ (r.steps as u64).wrapping_mul(0x9E37_79B9) ^ r.violation.as_ref().map(|v| dhash(&(v.oracle.clone(), v.step, v.op.clone()))).unwrap_or(0);
+			let d = th ^ (r.steps as u64).wrapping_mul(0x9E37_79B9) ^ dhash(&r.final_text).rotate_left(17) ^ r.violation.as_ref().map(|v| dhash(&(v.oracle.clone(), v.step, v.op.clone()))).unwrap_or(0);
 			w.digest = w.digest.wrapping_add(d);
 			if keep_digests {
 				w.run_digests.push((run, d));
